@@ -14,7 +14,7 @@ from vlib.run import V
 PROP = "C05"
 
 VALUES = {
-    "v1": {"n": 1, "tag": 11, "time": 1000},
+    "v1": {"n": 0, "tag": 11, "time": 1000},   # the empty value
     "v2": {"n": 40, "tag": 22, "time": 4102444800000, "metadata": {"name": "long-record-é", "list": [1, 2.5, None]}, "raw_metadata": b"\x00\xff\x10"},
 }
 
@@ -90,7 +90,7 @@ def seeds_for(ctx_sri, keys):
     m.content[s1] = d1
     m.content[s2] = d2
     m.insert(a, s2, size=40, time=VALUES["v2"]["time"], metadata=VALUES["v2"]["metadata"], raw_metadata=VALUES["v2"]["raw_metadata"])
-    m.insert(b, s1, size=1, time=1000)
+    m.insert(b, s1, size=VALUES["v1"]["n"], time=1000)
     out.append(("ref-written+tombstone+torn+garbage", snap, m))
     return out
 
